@@ -282,3 +282,76 @@ Proof.
   intros H I I' N P E.
   rewrite <- (full_to_config_deterministic srt srt iter iter' m a b H H I I' N P), E. reflexivity.
 Qed.
+
+(* ------------------------------------------------------------------ the equality is reflexive *)
+Lemma list_eqb_refl {A} (e : A -> A -> bool) l : (forall x, e x x = true) -> list_eqb e l l = true.
+Proof. intros H. induction l; cbn; [reflexivity|]. rewrite H, IHl. reflexivity. Qed.
+Lemma lN_eqb_refl l : lN_eqb l l = true.
+Proof. apply list_eqb_refl, N.eqb_refl. Qed.
+Lemma kv_eqb_refl x : kv_eqb x x = true.
+Proof. unfold kv_eqb. rewrite !N.eqb_refl. reflexivity. Qed.
+Lemma sel_eqb_refl s : sel_eqb s s = true.
+Proof. apply list_eqb_refl, kv_eqb_refl. Qed.
+Lemma prefix_eqb_refl p : prefix_eqb p p = true.
+Proof. unfold prefix_eqb. rewrite fam_eqb_refl, !N.eqb_refl. reflexivity. Qed.
+Lemma oN_eqb_refl o : oN_eqb o o = true.
+Proof. destruct o; cbn; [apply N.eqb_refl|reflexivity]. Qed.
+Lemma oip_eqb_refl o : oip_eqb o o = true.
+Proof. destruct o as [x|]; cbn; [|reflexivity]. apply ip_eqb_eq. reflexivity. Qed.
+Lemma beqb_refl b : Bool.eqb b b = true.
+Proof. destruct b; reflexivity. Qed.
+
+Lemma peer_eqb_refl p : peer_eqb p p = true.
+Proof.
+  unfold peer_eqb. rewrite !N.eqb_refl, !oip_eqb_refl, !oN_eqb_refl, !beqb_refl.
+  rewrite (list_eqb_refl sel_eqb _ sel_eqb_refl). reflexivity.
+Qed.
+Lemma bfd_eqb_refl b : bfd_eqb b b = true.
+Proof. unfold bfd_eqb. rewrite !N.eqb_refl, !oN_eqb_refl, !beqb_refl. reflexivity. Qed.
+Lemma pool_eqb_refl p : pool_eqb p p = true.
+Proof.
+  unfold pool_eqb. rewrite N.eqb_refl, !beqb_refl, (list_eqb_refl prefix_eqb _ prefix_eqb_refl).
+  rewrite (list_eqb_refl bgpadv_eqb).
+  2:{ intros a. unfold bgpadv_eqb. rewrite !N.eqb_refl, !lN_eqb_refl. reflexivity. }
+  rewrite (list_eqb_refl l2adv_same).
+  2:{ intros a. unfold l2adv_same. rewrite beqb_refl, !lN_eqb_refl. reflexivity. }
+  destruct (p_alloc p) as [a|]; cbn; [|reflexivity].
+  unfold salloc_eqb. rewrite N.eqb_refl, lN_eqb_refl, (list_eqb_refl sel_eqb _ sel_eqb_refl). reflexivity.
+Qed.
+Lemma out_eqb_refl o : out_eqb o o = true.
+Proof.
+  unfold out_eqb. rewrite (list_eqb_refl pool_eqb _ pool_eqb_refl), lN_eqb_refl.
+  rewrite list_eqb_refl; [reflexivity|]. intros x. rewrite N.eqb_refl, lN_eqb_refl. reflexivity.
+Qed.
+Lemma fconfig_eqb_refl c : fconfig_eqb c c = true.
+Proof.
+  unfold fconfig_eqb. rewrite out_eqb_refl, (list_eqb_refl peer_eqb _ peer_eqb_refl),
+    (list_eqb_refl bfd_eqb _ bfd_eqb_refl), N.eqb_refl. reflexivity.
+Qed.
+
+(* the end-to-end statement with the model's own equality: no hypothesis on [ceq] *)
+Lemma permuted_listing_never_reloads_eqb srt iter iter' m a b pv st c h :
+  hsort srt -> map_order iter -> map_order iter' -> fnodup a -> fperm a b ->
+  full_to_config srt iter m a = Some c -> rs_cur st = Some c ->
+  reconcile pv fconfig_eqb st (full_to_config srt iter' m b) h = st.
+Proof.
+  intros H I I' N P E R.
+  apply (permuted_listing_never_reloads srt iter iter' m a b pv fconfig_eqb st c h H I I' N P E R (fconfig_eqb_refl c)).
+Qed.
+
+(* ... and derived from a run: the first reconcile of listing [a] from the empty state stores
+   the configuration (handler answer not an error), every later reconcile of any permuted
+   listing leaves calls and reloads as they are *)
+Lemma first_then_permuted srt iter iter' m a b pv c h h' :
+  hsort srt -> map_order iter -> map_order iter' -> fnodup a -> fperm a b ->
+  full_to_config srt iter m a = Some c -> (h = SSuccess \/ h = SReprocessAll) ->
+  let st0 := {| rs_cur := None; rs_calls := 0; rs_reloads := 0 |} in
+  let st1 := reconcile pv fconfig_eqb st0 (full_to_config srt iter m a) h in
+  rs_calls st1 = 1%nat /\ reconcile pv fconfig_eqb st1 (full_to_config srt iter' m b) h' = st1.
+Proof.
+  intros H I I' N P E Hh st0 st1.
+  assert (R : rs_cur st1 = Some c /\ rs_calls st1 = 1%nat).
+  { unfold st1, st0. rewrite E. cbn. destruct Hh as [-> | ->]; cbn; auto. }
+  destruct R as [R1 R2]. split; [assumption|].
+  exact (permuted_listing_never_reloads_eqb srt iter iter' m a b pv st1 c h' H I I' N P E R1).
+Qed.
